@@ -205,6 +205,47 @@ fn check_delivered(mode: Mode, input: &[u8], consumed: usize, sh: &Rc<RefCell<Sh
     })
 }
 
+/// After a formatted write of `a` that was abandoned (its `Display` impl failed or panicked on its own, the inner writer
+/// was healthy) and a successful `write_all(b)`: `before` is what the inner writer held after the first call, `new` what
+/// it received during the second.  How much of an abandoned write counts as consumed is not specified, but it must be
+/// ONE amount: for some prefix of `a`, `before` is exactly what that prefix delivers and `new` is what `b` delivers
+/// from the state after that prefix.
+///
+/// `joint = false` (the first call unwound from a panic): what was delivered and how far the state advanced may be two
+/// different amounts - a stream that renders into a buffer and writes once has consumed everything and delivered
+/// nothing when the formatting code unwinds.
+fn judge_after_abandoned(mode: Mode, a: &[u8], b: &[u8], before: &[u8], new: &[u8], joint: bool) -> Result<(), String> {
+    let ok = if joint {
+        (0..=a.len()).any(|r| {
+            if mode != Mode::Strip {
+                return before == &a[..r] && new == b;
+            }
+            let mut m = StripModel::default();
+            m.check_output(&a[..r], before).is_ok() && m.check_output(b, new).is_ok()
+        })
+    } else if mode != Mode::Strip {
+        a.starts_with(before) && new == b
+    } else {
+        StripModel::default().output_of_some_prefix(a, before)
+            && (0..=a.len()).any(|r| {
+                let mut m = StripModel::default();
+                let _ = m.expected_exact(&a[..r]);
+                m.check_output(b, new).is_ok()
+            })
+    };
+    if ok {
+        Ok(())
+    } else {
+        Err(format!(
+            "after an abandoned write! of {} the inner writer held {}, and write_all({}) then delivered {}: this differs from consuming any one prefix of the abandoned text and then the second buffer",
+            show(a),
+            show(before),
+            show(b),
+            show(new)
+        ))
+    }
+}
+
 pub fn run_case(mode: Mode, input: &[u8], driver: Driver, script: Script) -> (Result<(), String>, Script) {
     // for the padded-format driver the oracle's input is what std formatting produces from `input`
     let padded;
@@ -434,6 +475,7 @@ pub fn run_case(mode: Mode, input: &[u8], driver: Driver, script: Script) -> (Re
                     // the inner writer deviated during the abandoned call: the two-call drivers judge that situation
                     return Ok(());
                 }
+                let before_len = sh.borrow().accepted.len();
                 begin_call(&sh);
                 let second = stream.write_all(&input[cut..]);
                 let (errs, zero) = {
@@ -445,7 +487,8 @@ pub fn run_case(mode: Mode, input: &[u8], driver: Driver, script: Script) -> (Re
                         if errs.iter().any(|k| *k != ErrorKind::Interrupted) {
                             return Err(format!("inner error {:?} was turned into success", errs[0]));
                         }
-                        check_delivered(mode, input, input.len(), &sh, "after an abandoned write! of the first part and write_all of the rest")
+                        let all = sh.borrow().accepted.clone();
+                        judge_after_abandoned(mode, &input[..cut], &input[cut..], &all[..before_len.min(all.len())], &all[before_len.min(all.len())..], true)
                     }
                     Err(e) => {
                         let allowed = errs.contains(&e.kind()) || (zero && e.kind() == ErrorKind::WriteZero);
@@ -489,10 +532,6 @@ pub fn run_case(mode: Mode, input: &[u8], driver: Driver, script: Script) -> (Re
                 // even nothing, if it renders first and writes once - but what it delivered must be a prefix, and the
                 // next call must behave as after SOME prefix of the abandoned text.
                 let before = sh.borrow().accepted.clone();
-                let ok_first = if mode == Mode::Strip { StripModel::default().output_of_some_prefix(a_bytes, &before) } else { a_bytes.starts_with(&before) };
-                if !ok_first {
-                    return Err(format!("after a write! whose Display impl panicked (caught) the inner writer holds {}, which is not the stripped form of any prefix of {} and differs from anything that call may deliver", show(&before), show(a_bytes)));
-                }
                 begin_call(&sh);
                 let second = stream.write_all(b_bytes);
                 let (errs, zero) = {
@@ -500,34 +539,12 @@ pub fn run_case(mode: Mode, input: &[u8], driver: Driver, script: Script) -> (Re
                     (s.call_errors.clone(), s.call_zero)
                 };
                 let new: Vec<u8> = sh.borrow().accepted[before.len()..].to_vec();
-                let starts: Vec<StripModel> = (0..=a_bytes.len())
-                    .map(|r| {
-                        let mut m = StripModel::default();
-                        let _ = m.expected_exact(&a_bytes[..r]);
-                        m
-                    })
-                    .collect();
                 match second {
                     Ok(()) => {
                         if errs.iter().any(|k| *k != ErrorKind::Interrupted) {
                             return Err(format!("inner error {:?} was turned into success", errs[0]));
                         }
-                        let ok = if mode == Mode::Strip {
-                            starts.iter().any(|m| {
-                                let mut m = *m;
-                                m.check_output(b_bytes, &new).is_ok()
-                            })
-                        } else {
-                            new == b_bytes
-                        };
-                        if !ok {
-                            return Err(format!(
-                                "after a write! whose Display impl panicked (caught), write_all({}) returned Ok(()) but the inner writer received {} during it, which differs from what this call has to deliver after any prefix of the abandoned text {}",
-                                show(b_bytes),
-                                show(&new),
-                                show(a_bytes)
-                            ));
-                        }
+                        judge_after_abandoned(mode, a_bytes, b_bytes, &before, &new, false)?;
                         Ok(())
                     }
                     Err(e) => {
